@@ -348,7 +348,7 @@ Section UtSetBridge.
       fold (strip r). unfold F0 at 1. cbv beta iota zeta.
       callee (g_do_insert_update_ok t k ex a).
       destruct (g_do_insert_update t k ex a) as [[t1 b]|], (ul_ins t k tt a ex) as [[t2 b2]|]; cbn [bind]; intros P; try contradiction; auto.
-      inversion P; subst. destruct b2; cbn [bind]; apply IH. }
+      inversion P; subst. destruct b2; cbn [bind]; rewrite ?Nat.add_1_r, ?Nat.add_0_r; apply IH. }
     specialize (Q l s1 0). revert Q.
     destruct (foldM _ _ _) as [[s' n']|]; cbn [bind]; auto.
   Qed.
